@@ -48,8 +48,8 @@ CHECKS = {
         design="4/C06",
     ),
     "C07": dict(
-        text="Every conjunction of up to two counterfactual event items (all consistent subscript assignments incl. reflexive ones, "
-        "values - and +) on every graph of the bound is passed to id_star; the result is evaluated on two functional witness SCMs by "
+        text="Every conjunction of up to three counterfactual event items (all consistent subscript assignments incl. reflexive ones, "
+        "values - and +) on every labelled ADMG up to 3 nodes is passed to id_star; the result is evaluated on two functional witness SCMs by "
         "enumerating every exogenous setting, for every base value assignment, and compared with the probability of the "
         "conjunction; Zero() is accepted only for probability-zero events; only the 'unidentifiable' refusal may be raised. "
         "Three defect mechanisms of ID* that the repository's own tests pin are listed in known_findings.json with an index of "
@@ -96,7 +96,7 @@ CHECKS = {
         design="4/C09",
     ),
     "C10": dict(
-        text="Breadth-first exploration of DSL operation sequences from a 24-atom alphabet (thorough: also three operations deep "
+        text="Breadth-first exploration of DSL operation sequences from a 32-atom alphabet (thorough: also three operations deep "
         "from a 12-atom alphabet): for every well-scoped expression reached and every ordering, the value function of the "
         "canonical form (exact rationals over generic tables, every value assignment) is compared with that of the expression; "
         "all states are grouped by canonical form across shards and every group must have one value function.",
@@ -106,7 +106,8 @@ CHECKS = {
     "C11": dict(
         text="Same state space: canonicalize is applied to each state, to its canonical form (fix-point, by object equality and "
         "text) and to every presentation variant (factor permutations, product re-nesting, children/parents permutations at "
-        "every node, everything reversed); the ordered canonical texts are hashed and compared across PYTHONHASHSEED values.",
+        "every node, everything reversed); the ordered canonical texts are hashed and compared across PYTHONHASHSEED values, and "
+        "equal intervention sets with different iteration orders (colliding frozensets) must print and canonicalise identically.",
         note="Variants are built with the raw dataclass constructors; equality is y0's own dataclass equality plus exact structure.",
         design="4/C11",
     ),
